@@ -48,7 +48,7 @@ type knownBlock struct {
 	kind   string // "correct", "byz-valid", "byz-invalid:<rule>"
 }
 
-var byzStrategies = []string{"silent", "echo", "nil-voter", "equivocate", "split", "invalid-proposer", "withhold", "tx-mixer"}
+var byzStrategies = []string{"silent", "echo", "nil-voter", "equivocate", "split", "invalid-proposer", "withhold", "tx-mixer", "lock-bait", "late-proposer"}
 
 func (s *Sim) setupByz() {
 	for _, id := range s.cfg.ByzIdx {
@@ -154,12 +154,25 @@ func (s *Sim) byzVote(b *Byz, vals *types.ValidatorSet, h uint64, r uint32, t kp
 	return v
 }
 
-func (s *Sim) sendRaw(src, dst int, ch byte, msg consensus.Message, key, desc string) {
+func (s *Sim) sendRaw(src, dst int, ch byte, msg consensus.Message, key, desc string) bool {
 	full := fmt.Sprintf("%d>%d/%s", src, dst, key)
 	if t, ok := s.until[full]; ok && s.now() < t {
-		return
+		return false
 	}
-	s.schedule(&Msg{Src: src, Dst: dst, Ch: ch, Bytes: consensus.MustEncode(msg), Desc: desc, Key: full, Byz: true})
+	s.schedule(&Msg{Src: src, Dst: dst, Ch: ch, Bytes: consensus.MustEncode(msg), Desc: desc, Key: full, Byz: true, Meta: metaOf(msg)})
+	return true
+}
+
+// sendFront is a Byzantine sender's message on a fast link: not subject to the
+// director or to network faults, delivered before anything else deliverable now.
+func (s *Sim) sendFront(src, dst int, ch byte, msg consensus.Message, key, desc string) bool {
+	full := fmt.Sprintf("%d>%d/%s", src, dst, key)
+	if t, ok := s.until[full]; ok && s.now() < t {
+		return false
+	}
+	s.schedule(&Msg{Src: src, Dst: dst, Ch: ch, Bytes: consensus.MustEncode(msg), Desc: desc, Key: full, Byz: true, Meta: metaOf(msg), NoFilter: true, Front: true})
+	s.until[full] = s.now() + time.Hour
+	return true
 }
 
 // adversaryStep lets Byzantine validators and noise adversaries act at a
@@ -204,7 +217,24 @@ func (s *Sim) byzAct(b *Byz, target *kit.Node, rs *cstypes.RoundState) {
 	h, r := rs.Height, rs.Round
 	// 1. proposals, when the target believes it is b's turn
 	if rs.Proposal == nil && rs.Step <= cstypes.RoundStepPropose && rs.Validators.GetProposer().Address == b.Addr {
-		s.byzPropose(b, target, rs)
+		s.byzPropose(b, target, rs, false)
+	}
+	if b.Strat == "late-proposer" && rs.Proposal == nil && rs.Step > cstypes.RoundStepPropose && rs.Validators.GetProposer().Address == b.Addr {
+		// a second, different proposal for a node that went through the round without one,
+		// at a tape-chosen later step (for instance once it collects the block it saw
+		// +2/3 precommits for)
+		ck := fmt.Sprintf("late/%d/%d/%d", h, r, target.ID)
+		at, ok := b.choice[ck]
+		if !ok {
+			at = []int{int(cstypes.RoundStepPrevote), int(cstypes.RoundStepPrecommit), int(cstypes.RoundStepCommit)}[s.tape.Weighted(1, 1, 3)]
+			b.choice[ck] = at
+		}
+		if int(rs.Step) >= at {
+			s.byzPropose(b, target, rs, true)
+		}
+	}
+	if b.Strat == "lock-bait" {
+		s.byzStalePolka(b, target, rs)
 	}
 	if b.Strat == "withhold" {
 		// votes are signed now but released a few rounds later
@@ -225,7 +255,7 @@ func (s *Sim) byzAct(b *Byz, target *kit.Node, rs *cstypes.RoundState) {
 			switch b.Strat {
 			case "nil-voter":
 				ch = 0
-			case "echo", "withhold", "invalid-proposer", "tx-mixer":
+			case "echo", "withhold", "invalid-proposer", "tx-mixer", "lock-bait", "late-proposer":
 				// vote for what the target itself holds as proposal (nil if none)
 				ch = 0
 				if rs.ProposalBlock != nil {
@@ -237,6 +267,9 @@ func (s *Sim) byzAct(b *Byz, target *kit.Node, rs *cstypes.RoundState) {
 				}
 				if rs.ProposalBlock == nil && rs.Step <= cstypes.RoundStepPropose {
 					continue // wait for a proposal before echoing
+				}
+				if b.Strat == "lock-bait" && t == kproto.PrecommitType {
+					ch = 0 // helps polkas form, never helps a commit
 				}
 			case "equivocate":
 				ch = s.tape.Draw(len(cands) + 1)
@@ -272,11 +305,63 @@ func (s *Sim) byzAct(b *Byz, target *kit.Node, rs *cstypes.RoundState) {
 	}
 }
 
-var invalidRules = []string{"commit-nil-votes-counted", "height+1", "last-block-id", "commit-other-block", "commit-bad-sig", "commit-below-quorum", "app-hash",
+// byzStalePolka: towards a node that is locked on a block and has moved past its lock
+// round, b signs prevotes for EARLIER rounds (or the lock round) that complete a +2/3
+// prevote set for another value there, together with the correct validators' votes the
+// node already holds. A correct node must not unlock on that.
+func (s *Sim) byzStalePolka(b *Byz, target *kit.Node, rs *cstypes.RoundState) {
+	if rs.LockedBlock == nil || rs.Votes == nil || rs.Round <= rs.LockedRound {
+		return
+	}
+	_, bv := rs.Validators.GetByAddress(b.Addr)
+	if bv == nil {
+		return
+	}
+	total := rs.Validators.TotalVotingPower()
+	lockedHash := rs.LockedBlock.Hash()
+	for r := uint32(1); r <= rs.LockedRound; r++ {
+		pv := rs.Votes.Prevotes(r)
+		if pv == nil {
+			continue
+		}
+		if _, ok := pv.TwoThirdsMajority(); ok {
+			continue
+		}
+		for _, cand := range s.candidates(rs.Height) {
+			if cand.Hash == lockedHash {
+				continue
+			}
+			var sum int64
+			if ba := pv.BitArrayByBlockID(cand); ba != nil {
+				for i := 0; i < ba.Size(); i++ {
+					if ba.GetIndex(i) {
+						if _, v := rs.Validators.GetByIndex(uint32(i)); v != nil && v.Address != b.Addr {
+							sum += v.VotingPower
+						}
+					}
+				}
+			}
+			if sum == 0 || quorumOK(sum, total) || !quorumOK(sum+bv.VotingPower, total) {
+				continue
+			}
+			v := s.byzVote(b, rs.Validators, rs.Height, r, kproto.PrevoteType, cand, time.Now())
+			if v == nil {
+				continue
+			}
+			if s.sendRaw(b.ID, target.ID, consensus.VoteChannel, &consensus.VoteMessage{Vote: v}, "byz-"+voteKey(v),
+				fmt.Sprintf("BYZ%d Vote h%d r%d t%d %s (completes an old-round polka)", b.ID, v.Height, v.Round, v.Type, short(v.BlockID.Hash))) {
+				s.res.Fault("byz-stale-polka-completed")
+			}
+			break
+		}
+	}
+}
+
+var invalidRules = []string{"evidence-twice", "evidence-already-committed", "commit-nil-votes-counted", "height+1", "last-block-id", "commit-other-block", "commit-bad-sig", "commit-below-quorum", "app-hash",
 	"validators-hash", "next-validators-hash", "time+1ns", "time-not-after-parent", "unknown-proposer", "num-txs", "data-hash", "commit-hash"}
 
 // byzPropose crafts b's proposal for the target's (h, r).
-func (s *Sim) byzPropose(b *Byz, target *kit.Node, rs *cstypes.RoundState) {
+func (s *Sim) byzPropose(b *Byz, target *kit.Node, rs *cstypes.RoundState, late bool) {
 	h, r := rs.Height, rs.Round
 	variant := 0 // 0 = block A for everybody
 	switch b.Strat {
@@ -284,6 +369,9 @@ func (s *Sim) byzPropose(b *Byz, target *kit.Node, rs *cstypes.RoundState) {
 		variant = target.ID % 2
 	case "nil-voter":
 		return
+	}
+	if late {
+		variant = 1
 	}
 	key := fmt.Sprintf("%d/%d/%d", h, r, variant)
 	bp, ok := b.props[key]
@@ -295,6 +383,9 @@ func (s *Sim) byzPropose(b *Byz, target *kit.Node, rs *cstypes.RoundState) {
 		rule := ""
 		if b.Strat == "invalid-proposer" {
 			rule = invalidRules[s.tape.Draw(len(invalidRules))]
+		} else if pend, _ := target.EvPool.PendingEvidence(1 << 20); (len(pend) > 0 || len(s.mon.c19.commitH) > 0) && s.tape.Chance(1, 3) {
+			// whatever its strategy, a Byzantine proposer may abuse the evidence list once there is evidence around
+			rule = invalidRules[s.tape.Draw(2)]
 		}
 		blk := s.craftBlock(b, target, rs, st, variant, rule)
 		if blk == nil {
@@ -320,6 +411,17 @@ func (s *Sim) byzPropose(b *Byz, target *kit.Node, rs *cstypes.RoundState) {
 		s.trace("BYZ%d crafts proposal h%d r%d variant %d %s %s", b.ID, h, r, variant, kind, short(id.Hash))
 	}
 	p := bp.prop
+	if late {
+		if s.sendFront(b.ID, target.ID, consensus.DataChannel, &consensus.ProposalMessage{Proposal: p},
+			fmt.Sprintf("byzprop/%d/%d/%s", p.Height, p.Round, short(p.POLBlockID.Hash)),
+			fmt.Sprintf("BYZ%d Proposal h%d r%d %s (%s, late)", b.ID, p.Height, p.Round, short(p.POLBlockID.Hash), bp.kind)) {
+			s.res.Fault("byz-late-second-proposal")
+			if rs.Step == cstypes.RoundStepCommit {
+				s.res.Probe("second-proposal-to-a-node-in-the-commit-step")
+			}
+		}
+		return // the block itself is never supplied
+	}
 	s.sendRaw(b.ID, target.ID, consensus.DataChannel, &consensus.ProposalMessage{Proposal: p},
 		fmt.Sprintf("byzprop/%d/%d/%s", p.Height, p.Round, short(p.POLBlockID.Hash)),
 		fmt.Sprintf("BYZ%d Proposal h%d r%d %s (%s)", b.ID, p.Height, p.Round, short(p.POLBlockID.Hash), bp.kind))
@@ -468,7 +570,52 @@ func (s *Sim) craftBlock(b *Byz, target *kit.Node, rs *cstypes.RoundState, st cs
 		}
 		txs = s.byzTxMix(target, h, hdr.GasLimit)
 	}
-	blk := types.NewBlock(hdr, txs, cm, nil, trie.NewStackTrie(nil))
+	var evs []types.Evidence
+	pend, _ := target.EvPool.PendingEvidence(1 << 20)
+	switch rule {
+	case "evidence-twice":
+		// the same real, uncommitted evidence more than once in one block
+		if len(pend) == 0 {
+			return nil
+		}
+		e := pend[s.tape.Draw(len(pend))]
+		evs = []types.Evidence{e, e}
+		if len(pend) > 1 {
+			o := pend[(s.tape.Draw(len(pend)-1)+1)%len(pend)]
+			if !o.Hash().Equal(e.Hash()) {
+				switch s.tape.Draw(3) {
+				case 1:
+					evs = []types.Evidence{e, o, e}
+				case 2:
+					evs = []types.Evidence{o, e, e}
+				}
+			}
+		}
+	case "evidence-already-committed":
+		c := s.mon.c19
+		var hs []string
+		byKey := map[string]types.Evidence{}
+		for h, n := range c.committed {
+			if n > 0 && c.evs[h] != nil {
+				hs = append(hs, h.Hex())
+				byKey[h.Hex()] = c.evs[h]
+			}
+		}
+		if len(hs) == 0 {
+			return nil
+		}
+		sort.Strings(hs)
+		evs = []types.Evidence{byKey[hs[s.tape.Draw(len(hs))]]}
+	case "":
+		// a valid block may carry the real evidence the target itself holds
+		if len(pend) > 0 && s.tape.Chance(1, 2) {
+			evs = pend
+			if len(evs) > 3 {
+				evs = evs[:3]
+			}
+		}
+	}
+	blk := types.NewBlock(hdr, txs, cm, evs, trie.NewStackTrie(nil))
 	switch rule {
 	case "num-txs":
 		hh := blk.Header()
